@@ -481,6 +481,10 @@ def rules(rep, facts):
         from .rules_c01 import r2_ranges
         r2_ranges(rep, g, a)
         rep.relabel('C01/R2', 'C12/R2b', 'the document grammar applies the same field ranges and calendar: ')
+        # both parsers cut a long fraction to nanoseconds the same way (the standalone side is tabulated by C12/R4)
+        from .rules_c02 import r5_fraction
+        r5_fraction(rep, g, facts)
+        rep.relabel('C02/R5', 'C12/R8', 'the document parser reads the fraction the standalone parser reads: ')
     dfeats = set(facts.crates['toml_datetime'].get('features', []))
     if 'serde' in dfeats and 'toml_edit' in facts.crates and 'serde' in feats:
         r6_bridge(rep, facts)
